@@ -9,7 +9,7 @@
    cell st j q = the (offset, length) range of that element, is_cell = "same buffer and same range"
    (the sharing relation of the abstract list-of-arrays model: two list entries are the same array). *)
 From Coq Require Import ZArith List Bool Arith Lia.
-From NV Require Import C15.Model C15.ListLemmas C15.Invariant C15.Steps C15.Steps2 C15.Lemmas C15.Lemmas2 C15.Simulation C15.Links C15.Tractogram.
+From NV Require Import C15.Model C15.ListLemmas C15.Invariant C15.Steps C15.Steps2 C15.Lemmas C15.Lemmas2 C15.Pending C15.Simulation C15.Links C15.Tractogram.
 Import ListNotations.
 
 (* offsets/lengths inside the written prefix <= capacity, every buffer carries one ascending chain
@@ -273,6 +273,32 @@ Theorem C15_shrink_harmless : forall st i, reachable st -> i < length (seqs st) 
 Proof. exact shrink_harmless. Qed.
 Print Assumptions C15_shrink_harmless.
 
+(* ---- pending elements of a cached build (append(cache_build=True) ... before finalize_append()):
+   pend st k = None outside a build, Some (the elements appended and not yet visible) inside one;
+   F st k = C st k ++ them (F_split).  No growth of ANOTHER object and no assignment / in-place operator
+   at all changes them — the two facts needed to carry pending lists in the abstract state. *)
+Theorem C15_pending_isolated : forall st o i, reachable st -> grows o i ->
+  forall j, j <> i -> j < length (seqs st) -> pend (fst (step st o)) j = pend st j.
+Proof. exact grow_pend. Qed.
+Print Assumptions C15_pending_isolated.
+
+Theorem C15_pending_under_writes : forall st o, wf st -> writes o = true ->
+  seqs (fst (step st o)) = seqs st /\ forall k, k < length (seqs st) -> pend (fst (step st o)) k = pend st k.
+Proof. exact write_pend. Qed.
+Print Assumptions C15_pending_under_writes.
+
+(* the new object of an out-of-place operator (scalar or sequence operand), of concatenate(axis=1) and
+   of the constructor is linked to no existing object (copy: C15_links_copy) *)
+Theorem C15_links_fresh : forall st o, reachable st ->
+  match o with
+  | OOp _ _ false _ | OOpSeq _ _ _ false _ | OConcat1 _ | ONew _ _ _ _ => True
+  | _ => False
+  end ->
+  snd (step st o) = ROk ->
+  forall y q q', y < length (seqs st) -> R (fst (step st o)) (length (seqs st)) q y q' = false.
+Proof. exact fresh_links. Qed.
+Print Assumptions C15_links_fresh.
+
 (* ---- growing a view, a copy or any derived sequence (append with or without cache_build,
    finalize_append, extend of a list / generator / sequence / itself) never changes any element
    of any other sequence object, nor the object itself *)
@@ -324,6 +350,30 @@ Theorem C15_tractogram_getitem : forall st c ix ps, reachable st -> is_live st c
   (forall k, k < length (seqs st) -> getseq st' k = getseq st k /\ C st' k = C st k).
 Proof. exact tget_component_spec. Qed.
 Print Assumptions C15_tractogram_getitem.
+
+(* Tractogram.copy() is copy.deepcopy: every ArraySequence component is CLONED (ODeepCopy: the whole
+   buffer, the same offsets and lengths, _is_view as it is).  The clone shows the same contents on a
+   buffer nobody else uses (so by C15_own_contents_setitem_* / _inplace / C15_grow_isolated nothing
+   done to it reaches the source), nothing that exists changes. *)
+Theorem C15_tractogram_copy : forall st i, reachable st -> is_live st i = true ->
+  let st' := fst (step st (ODeepCopy i)) in
+  let n := length (seqs st) in
+  snd (step st (ODeepCopy i)) = ROk /\ reachable st' /\ length (seqs st') = S n /\ is_live st' n = true /\
+  C st' n = C st i /\ keeps st st' /\ length (heap st) <= sbuf (getseq st' n).
+Proof. exact deep_copy_spec. Qed.
+Print Assumptions C15_tractogram_copy.
+
+(* Tractogram.__add__(other), per component: clone, then extend by other's component.  The sum's
+   component shows the elements of both; NO existing object changes, whatever the operands share
+   (t + t, t + t[idx], a sum of slices ...): a derived tractogram never alters what it was derived
+   from.  (`+=` is C15_tractogram_extend_*.) *)
+Theorem C15_tractogram_add : forall st c b oc, reachable st -> is_live st c = true -> is_live st oc = true ->
+  let st' := tadd_component st c b oc in
+  let n := length (seqs st) in
+  reachable st' /\ C st' n = spec_extend (C st c) (C st oc) /\
+  (forall k, k < n -> getseq st' k = getseq st k /\ C st' k = C st k).
+Proof. exact tadd_component_spec. Qed.
+Print Assumptions C15_tractogram_add.
 
 (* Tractogram.apply_affine(affine, lazy=False) on a tractogram whose streamlines are "sliced"
    (_lengths.sum() != _data.shape[0]): `for i: streamlines[i] = apply_affine(affine, streamlines[i])`,
